@@ -8,6 +8,7 @@ import sys
 import threading
 
 REPO = os.environ.get("VERIF_REPO", "/repo")
+HERE_ = os.path.dirname(os.path.abspath(__file__))
 if REPO not in sys.path:
     sys.path.insert(0, REPO)
 
@@ -100,7 +101,7 @@ def cp(obj):
 def run_copy(line, how):
     COPY[0] = how
     try:
-        return run(line)
+        return run_plain(line)
     finally:
         COPY[0] = None
 
@@ -408,6 +409,13 @@ def _run(tok):
         return sx(keys.PrivateKey(unhex(a[0])).wif(compressed=unbool(a[1]), testnet=unbool(a[2])))
     if op == "from_wif":
         return hx(bytes(keys.PrivateKey.from_wif(unstr(a[0]))))
+    if op == "wif_cycle":
+        # a key IMPORTED from a WIF text and then exported in every flavour, twice, in mixed order, on the one object
+        k = keys.PrivateKey.from_wif(unstr(a[0]))
+        outs = []
+        for c, t in ((1, 1), (0, 0), (1, 0), (0, 1), (0, 0), (1, 1), (1, 0), (0, 1)):
+            outs.append(sx(k.wif(compressed=bool(c), testnet=bool(t))))
+        return hx(bytes(k)) + " " + " ".join(outs)
     if op == "sec_parse":
         K = keys.PublicKey.parse(unhex(a[0]))
         return hx(K.sec(True)) + " " + hx(K.sec(False))
@@ -479,6 +487,20 @@ def _run(tok):
         param, index = int(a[2]), int(a[3])
         with _Prf(a[4]):
             return sx(_bip85_call(b, a[1], param, index))
+    if op == "bip85_seq":
+        # several requests (any parameter forms, refused ones included) on ONE BIP85 object
+        nd = unnode(a[0])
+        b = bip85.BIP85DeterministicEntropy(master_node=nd)
+        outs = []
+        for r in a[1].split(";"):
+            app, p_, i_ = r.split(",")
+            try:
+                outs.append(sx(_bip85_call(b, app, pyvalue(p_), pyvalue(i_))))
+            except (KeyboardInterrupt, SystemExit):
+                raise
+            except BaseException:
+                outs.append("err")
+        return " ; ".join(outs)
     if op == "bip85x":
         # parameters / indexes that are NOT plain ints: i:<int>  f:<float>  d:<Decimal>  q:<a/b Fraction>  s:<hex of text>  b:<0|1>
         nd = unnode(a[0])
@@ -903,8 +925,8 @@ def run_alt(line):
     ALT[0] = True
     ALT_BUFFERS.clear()
     try:
-        first = run(line)
-        second = run(line)
+        first = run_plain(line)
+        second = run_plain(line)
         return second if second != first else first
     finally:
         ALT[0] = False
@@ -914,13 +936,13 @@ def run_alt(line):
 def run_thread(line):
     """the same operation executed in a fresh worker thread (not the thread that imported the library)"""
     box = []
-    th = threading.Thread(target=lambda: box.append(run(line)))
+    th = threading.Thread(target=lambda: box.append(run_plain(line)))
     th.start()
     th.join()
     return box[0] if box else "err"
 
 
-def run(line):
+def run_plain(line):
     tok = [t for t in line.strip().split(" ") if t]
     try:
         return "ok " + _run(tok)
@@ -930,3 +952,56 @@ def run(line):
         raise
     except BaseException:
         return "err"
+
+
+# `run` is what the property oracles call for their follow-up operations (round trips, re-imports).  check.py rebinds it
+# for the duration of an exploration (python -O child, worker thread, environment variants) so that the follow-ups run
+# in the explored context too; everything in this module calls run_plain.
+run = run_plain
+
+
+class redirect:
+    """with impl.redirect(fn): the oracles' follow-up operations go through fn"""
+
+    def __init__(self, fn):
+        self.fn = fn
+
+    def __enter__(self):
+        global run
+        self.saved = run
+        run = self.fn
+
+    def __exit__(self, *a):
+        global run
+        run = self.saved
+
+
+class Child:
+    """a child interpreter that executes protocol lines (started with extra interpreter flags / environment)"""
+
+    def __init__(self, flags=(), env=None):
+        import subprocess
+        code = ("import sys; sys.path.insert(0, %r)\nimport impl\n"
+                "for l in sys.stdin:\n"
+                "    l = l.rstrip('\\n')\n"
+                "    print(impl.run_plain(l) if l else '', flush=True)\n" % HERE_)
+        e = dict(os.environ)
+        e.update(env or {})
+        self.p = subprocess.Popen([sys.executable] + list(flags) + ["-c", code], stdin=subprocess.PIPE,
+                                  stdout=subprocess.PIPE, stderr=subprocess.DEVNULL, text=True, cwd=HERE_, env=e)
+
+    def run(self, line):
+        try:
+            self.p.stdin.write(line + "\n")
+            self.p.stdin.flush()
+            out = self.p.stdout.readline()
+        except (BrokenPipeError, OSError):
+            return "child-died"
+        return out.rstrip("\n") if out else "child-died"
+
+    def close(self):
+        try:
+            self.p.stdin.close()
+            self.p.wait(timeout=10)
+        except Exception:
+            self.p.kill()
